@@ -134,6 +134,9 @@ def discharge(ob: Obligation, collect_functions=True):
 
     try:
         for status, out in E.explore(one):
+            if status == "pruned":
+                res["pruned"] = res.get("pruned", 0) + 1
+                continue
             if status != "ok":
                 res["aborted"] += 1
                 if len(res["inconclusive"]) < 20:
